@@ -222,6 +222,6 @@ package turn
 //@   assume-callee-pre
 //@   requires s != nil && conn != nil && s.log != nil && s.inboundMTU > 0
 //@   at-call server.HandleRequest assert [C05,C09:whole-datagram] n < s.inboundMTU && sameSlice(arg0.Buff, buf[:n]) && arg0.SrcAddr == addr && arg0.Conn == conn
-//@   at-call server.HandleRequest assert [C06,C07:configured-timeouts] arg0.ChannelBindTimeout == s.channelBindTimeout && arg0.PermissionTimeout == s.permissionTimeout && arg0.AllocationLifetime == s.allocationLifetime && arg0.AllocationManager == allocationManager && arg0.NonceHash == s.nonceHash && arg0.Realm == s.realm
+//@   at-call server.HandleRequest assert [C01,C02,C06,C07:configured-timeouts] arg0.ChannelBindTimeout == s.channelBindTimeout && arg0.PermissionTimeout == s.permissionTimeout && arg0.AllocationLifetime == s.allocationLifetime && arg0.AllocationManager == allocationManager && arg0.NonceHash == s.nonceHash && arg0.Realm == s.realm
 //@   ensures [C09:serve-ends-only-on-read-error] lastReadFailed
 //@   loop 0 invariant fresh(base(buf)) && len(buf) > 0
